@@ -186,11 +186,12 @@ func checkDecodeGates(r *Report, p *Prog, rule string, only func(*ssa.Function) 
 				parseErr = ai.Name
 			case ai.Kind == "call" && strings.Contains(ai.Args[0], "VerifyAudience"):
 				aud = ai.Name
-				ok := len(ai.Args) == 4 && strings.HasSuffix(ai.Args[2], ".Audience") && ai.Args[3] == "c:true"
+				// (called on the claims value, or through an interface the claims types share: the receiver is then not an argument)
+				ok := len(ai.Args) >= 3 && strings.HasSuffix(ai.Args[len(ai.Args)-2], ".Audience") && ai.Args[len(ai.Args)-1] == "c:true"
 				r.Check(ok, rule, t.name+": audience verified against the codec's Audience, required", p.InstrPos(ai.Instr), strings.Join(ai.Args[1:], ", "), "VerifyAudience is called with "+strings.Join(ai.Args[1:], ", ")+" (audience must be the codec's and must be required)")
 			case ai.Kind == "call" && strings.Contains(ai.Args[0], "VerifyIssuer"):
 				iss = ai.Name
-				ok := len(ai.Args) == 4 && strings.HasSuffix(ai.Args[2], ".Issuer") && ai.Args[3] == "c:true"
+				ok := len(ai.Args) >= 3 && strings.HasSuffix(ai.Args[len(ai.Args)-2], ".Issuer") && ai.Args[len(ai.Args)-1] == "c:true"
 				r.Check(ok, rule, t.name+": issuer verified against the codec's Issuer, required", p.InstrPos(ai.Instr), strings.Join(ai.Args[1:], ", "), "VerifyIssuer is called with "+strings.Join(ai.Args[1:], ", "))
 			case ai.Kind == "b" && mk != nil && strings.HasSuffix(ai.Args[0], "."+mk.Field):
 				marker = ai.Name
